@@ -1,6 +1,7 @@
-\* C06 step M, thorough: as quick, <= 4 delivered reports
+\* C06 step M, deep: random walks (TLC -simulate) of up to 8 delivered reports over the full gap set; every successor of every
+\* visited state is checked against SafeCex
 SPECIFICATION Spec
-VIEW View
+
 INVARIANT SafeCex
 CHECK_DEADLOCK FALSE
 CONSTANTS
@@ -15,7 +16,7 @@ CONSTANTS
   Dirs <- Dirs3
   Aircraft = {1}
   StartSet = {64, 500}
-  MaxReports = 4
+  MaxReports = 8
   SwapMax = 181
   SharedKey = FALSE
   EmitLen = 99
